@@ -77,6 +77,7 @@ func runC11(c *Ctx) {
 		c.Rule("R11.3b", "LockHeld")
 		c.Held(fn, nil, "inner save under processlock", inner, 1, "&p.processlock", LW)
 		c.Held(fn, nil, "store issaved under processlock", c.StoresD(fn, "&p.issaved"), 1, "&p.processlock", LW)
+		c.Held(fn, nil, "issaved tested under processlock", c.condsMatching(fn, "p.issaved"), 1, "&p.processlock", LW)
 	}
 	if fn := c.Need("isaac.(*DefaultProposalProcessor).Process"); fn != nil {
 		inner := c.CallsD(fn, "p.process(*)")
@@ -89,6 +90,8 @@ func runC11(c *Ctx) {
 		c.Rule("R11.3d", "LockHeld")
 		c.Held(fn, nil, "inner process under processlock", inner, 1, "&p.processlock", LW)
 		c.Held(fn, nil, "store manifest under processlock", c.StoresD(fn, "&p.manifest"), 1, "&p.processlock", LW)
+		c.Held(fn, nil, "isprocessed tested under processlock", c.condsMatching(fn, "p.isprocessed"), 1, "&p.processlock", LW)
+		c.Held(fn, nil, "store isprocessed under processlock", c.StoresD(fn, "&p.isprocessed"), 1, "&p.processlock", LW)
 	}
 	c.Rule("R11.3e", "WhoMayWrite")
 	c.OnlyIn("store DefaultProposalProcessor.manifest", c.WhoStores("DefaultProposalProcessor", "manifest"), 1,
